@@ -299,7 +299,7 @@ func (e *Exec) convert(v Value, from, to types.Type) Value {
 		}
 		if fb.Kind() == types.UnsafePointer {
 			if _, ok := tu.(*types.Pointer); ok {
-				return v
+				e.unsupported("unsafe.Pointer -> typed pointer conversion (reinterpretation of memory)")
 			}
 		}
 	}
@@ -345,10 +345,13 @@ func (e *Exec) convert(v Value, from, to types.Type) Value {
 	}
 	if _, ok := fu.(*types.Pointer); ok {
 		if tb, ok := tu.(*types.Basic); ok && tb.Kind() == types.UnsafePointer {
-			return v
+			e.unsupported("typed pointer -> unsafe.Pointer conversion")
 		}
 		if _, ok := tu.(*types.Pointer); ok {
-			return v
+			if types.Identical(fu, tu) {
+				return v
+			}
+			e.unsupported("pointer conversion between different types")
 		}
 	}
 	e.unsupported(fmt.Sprintf("convert %s -> %s", from, to))
